@@ -123,4 +123,35 @@ def xweekday (maxSerial : Nat) (serial : Int) (n : Int) : Except DErr Int :=
     .ok (if (serial + 7 - (n - 10)) % 7 = 0 then 7 else (serial + 7 - (n - 10)) % 7)
   else .error .num
 
+/-! ### TIME / HOUR / MINUTE / SECOND over exact rationals
+
+`xtime` and `_n2time` of `functions/date.py` compute in IEEE doubles; the definitions below are the same
+steps over exact rationals with the common denominator `864e8` (the nudge `1 / 864e8` of `_n2time`),
+for serials that are a whole number of seconds.  The floating-point instance is enumerated on the
+implementation and compared with these definitions by the check (command `hms`). -/
+
+/-- `TIME(h, m, s)` as a whole number of seconds: `(h/24 + m/1440 + s/86400) % 1` times 86 400 -/
+def timeSecs (h m s : Int) : Int := (3600 * h + 60 * m + s) % 86400
+
+/-- the denominator `864e8` -/
+def timeDen : Int := 86400000000
+
+/-- `_n2time` for a serial of `T` whole seconds (`serial = T / 86400 = T·10⁶ / timeDen`): hours (before
+`% 24`), minutes, and the numerator over `timeDen` of the seconds before rounding -/
+def n2time (T : Int) : Int × Int × Int :=
+  let ah := (T * 1000000 + 1) * 24                      -- at_hours · timeDen
+  let hours := ah / timeDen
+  let am := (ah - hours * timeDen) * 60                 -- at_mins · timeDen
+  let mins := am / timeDen
+  (hours, mins, (am - mins * timeDen) * 60)             -- secs · timeDen
+
+/-- `round(secs - 1.1e-6)` to the nearest integer: `floor(x + 1/2)` with `x = num/timeDen - 11/10⁷` -/
+def roundSecs (num : Int) : Int :=
+  (num * 20000000 - 22 * timeDen + timeDen * 10000000) / (2 * timeDen * 10000000)
+
+/-- `(HOUR, MINUTE, SECOND)` of `TIME(h, m, s)` -/
+def hmsOfTime (h m s : Int) : Int × Int × Int :=
+  let r := n2time (timeSecs h m s)
+  (r.1 % 24, r.2.1, roundSecs r.2.2)
+
 end XL
